@@ -39,6 +39,7 @@ CAPS = st.one_of(st.sampled_from([4, 4, 8, 16, 64]),
 def input_waves(draw, n, lanes, max_trans=3, tmax=512, single_only=False):
     """n inputs x lanes waveforms: {'v': initial value, 't': [strictly increasing transition times in grid units]}."""
     out = []
+    tmax = draw(st.sampled_from([tmax, tmax, 64, 24]))       # sometimes all edges close together (within the range of the delays): pulses interact
     for _ in range(n):
         row = []
         for _ in range(lanes):
